@@ -80,6 +80,10 @@ def build(case):
     if dlm in ("COMMA", "TAB"):
         for ln in a["lines"]:
             ln["seps"] = ["," if dlm == "COMMA" else "\t"] * max(0, len(ln["toks"]) - 1)
+    if case.get("pack"):
+        # a wrapped file may put several depth steps on one physical line: regroup the token stream k per line
+        toks_ = [t for ln in a["lines"] if ln["t"] == "row" for t in ln["toks"]]
+        a["lines"] = [lastext.row(toks_[k:k + case["pack"]]) for k in range(0, len(toks_), case["pack"])]
     if case.get("ctrlz") and not case.get("after"):
         # a DOS end-of-file marker right after the last value of the file (no line break before it)
         rows_ = [ln for ln in a["lines"] if ln["t"] == "row"]
@@ -104,6 +108,10 @@ def build(case):
         elif kind == "w":
             ln = {"t": "comment", "text": "#" + " ".join(["logged"] * max(1, c))}  # exactly as many words as there are columns
         a["lines"].insert(min(pos, len(a["lines"])), ln)
+    if case.get("comment_char"):
+        for ln in a["lines"]:
+            if ln["t"] == "comment":
+                ln["text"] = ln["text"].replace("#", case["comment_char"])
     from vlib import strategies as S_
     return S_.apply_scaffold(spec, case.get("scaffold"))
 
@@ -135,6 +143,9 @@ def oracle(case):
     if mc != "upper":
         out.cls("mnemonic_case-" + mc)
     kw = {}
+    if case.get("comment_char"):
+        kw["ignore_data_comments"] = case["comment_char"]  # the file's data comments use the character the caller names
+        out.cls("comment-char-" + case["comment_char"])
     if case.get("null_policy"):
         kw["null_policy"] = case["null_policy"]  # no cell of these files is a null marker of any policy
         out.cls("null_policy-" + case["null_policy"])
@@ -191,6 +202,8 @@ def grid(tier):
                                 yield dict(d=d, c=c, r=r, engine=engine, sign=sign, index="text")
                     for policy in ("all", "numbers-only"):
                         yield dict(d=d, c=c, r=r, engine=engine, sign="pos", null_policy=policy, noise=[[r // 2, "w"]])
+                    for ch in ("%", ";"):
+                        yield dict(d=d, c=c, r=r, engine=engine, sign="pos", comment_char=ch, noise=[[r // 2, "w"], [0, "c"]])
                     for z in (True, "line", "blank"):
                         yield dict(d=d, c=c, r=r, engine=engine, sign="pos", ctrlz=z)
                         yield dict(d=d, c=c, r=r, engine=engine, sign="pos", ctrlz=z, final_nl=False)
@@ -207,6 +220,11 @@ def grid(tier):
 
 def wrapped_grid(tier):
     cmax, rmax = (9, 3) if tier == "quick" else (24, 4)
+    # one declared curve (an index alone): every value is a depth step of its own, however many stand on a line
+    for k in (2, 3, 5):
+        for r in (k, 2 * k, 3 * k):
+            for engine in ("numpy", "normal"):
+                yield dict(d=1, c=1, r=r, engine=engine, wrap=1, pack=k, sign="pos")
     for c in range(1, cmax + 1):
         for p in range(1, c + 1):
             for r in range(1, rmax + 1):
